@@ -80,6 +80,25 @@ def handle (op : String) (a : Json) : Except String Json := do
       match resampleAxis c.times.length (c.times.headD 0) (c.times.getD 1 0) c.step (← fldNat a "target") with
       | .ok r => return valJ (axisJ r)
       | .error e => return errJ e
+  | "resample_chain" =>
+    -- `resample(resample(array, target1), target2)`: the second call sees the first one's output,
+    -- whose own spacing is not its advertised step
+    match resampleAxis (← fldNat a "n") (← fldRat a "t0") (← fldRat a "t1") (← fldRat a "step")
+        (← fldNat a "target1") with
+    | .error e => return errJ e
+    | .ok r1 =>
+      match resampleAxis r1.coords.length (r1.coords.headD 0) (r1.coords.getD 1 0) r1.step (← fldNat a "target2") with
+      | .error e => return errJ e
+      | .ok r2 => return valJ (Json.mkObj [("first", axisJ r1), ("second", axisJ r2)])
+  | "plans" =>
+    -- the traced plans (Tie 1b) evaluated on concrete numbers: used to cross-check the tracer itself
+    let sr ← fldRat a "sr"; let s ← fldRat a "s"; let e ← fldRat a "e"
+    let (c1, c2, c3, c4, c5, c6) := (clipPlan sr s e).toTuple
+    let (r1, r2, r3, r4) := (recordingPlan sr e).toTuple
+    let (p1, p2, p3, p4, p5, p6) := (stftPlan (1 / sr) s e 0).toTuple
+    let (q1, q2) := resamplePlanTuple s (1 / sr) e
+    return valJ (Json.mkObj [("clip", ratsJ [c1, c2, c3, c4, c5, c6]), ("recording", ratsJ [r1, r2, r3, r4]),
+      ("stft", ratsJ [p1, p2, p3, p4, p5, p6]), ("resample", ratsJ [q1, q2])])
   | "holds_axis" =>
     let ax : Axis := ⟨← getRatList (← fld a "coords"), ← fldRat a "step"⟩
     return boolJ (axisOk (← fldRat a "first") ax)
